@@ -226,12 +226,15 @@ pub fn parts(id: &'static str, tier: Tier) -> Option<(Vec<Part<Case>>, String)> 
                             ops.push((a, Op::CreatePlace { bid: false, vol: 6, trader: 77, price: None }));
                             ops.push((a, Op::CreatePlace { bid: true, vol: 6, trader: 77, price: None }));
                         }
-                        Some(Case::Market(MarketCase { ticks: vec![2, 2], levels: 3, trading: true, t0: 0, ops }))
+                        Some(Case::Market(MarketCase { ticks: vec![2, 2], levels: 3, trading: true, t0: 0, ops, zero_vols: false }))
                     }),
                     description: format!("every sequence of exactly {} operations on Market<2,3>, each = (asset 0 or 1) x (the 16 core create-and-place ops of C01 or cancel of local id 0..2), clock advanced before every op, then market orders draining both assets; both assets share local ids by construction", depth),
                 },
             };
             let mut v = vec![ex, market_part("market-random-dense", c.clone(), 4, tier.pick(120_000, 2_500_000))];
+            let mut z = c.clone();
+            z.zero_vol_pct = 12;
+            v.push(market_part("market-random-dense-with-zero-volumes", z, 4, tier.pick(40_000, 800_000)));
             c.wide = true;
             v.push(market_part("market-random-wide", c, 4, tier.pick(40_000, 800_000)));
             Some((v, "A market case is one interleaved operation history over 1..4 assets with per-asset tick sizes on Market<A,L>, driven in lock-step with A stand-alone real OrderBook<L> that receive only their own operations and every clock / trading broadcast; after EVERY operation each asset's full snapshot must equal its stand-alone book's, returned ids must be (asset, local id), and every all-asset query must equal the per-asset values in asset order. Non-trivial: >= 2 assets hold resting orders and orders with equal local ids differ across assets.".to_string()))
